@@ -1,6 +1,7 @@
-// D36 replay: back / back11 `M b(a);` with a non-const lvalue (or an rvalue) a selected the argument-forwarding constructor
-// template: b was a freshly constructed machine (initial configuration, empty history and queues) instead of a copy of a.
-// exit 0 = the copy has the configuration of the original
+// Observation (d) of DESIGN section 9 (NOT a claimed defect: C15 quantifies over copies from a const reference):
+// back / back11 `M b(a);` with a non-const lvalue (or an rvalue) a selects the argument-forwarding constructor template:
+// b is a freshly constructed machine (initial configuration, empty history and queues) instead of a copy of a.
+// exit 0 = every variant yields a copy; on the pinned tree this program exits 1 (lvalue / rvalue variants), the const& variant copies.
 #include <boost/msm/back/state_machine.hpp>
 #include <boost/msm/back11/state_machine.hpp>
 #include <boost/msm/front/state_machine_def.hpp>
